@@ -20,6 +20,7 @@ import (
 	"io"
 	"net"
 	"strings"
+	"sync/atomic"
 
 	"github.com/caddyserver/caddy/v2"
 	"github.com/caddyserver/caddy/v2/caddyconfig/caddyfile"
@@ -177,7 +178,8 @@ type MatchOpenVPN struct {
 	groupKeyCrypt *StaticKey
 
 	authDigest *AuthDigest
-	lastDigest *AuthDigest
+	// lastDigest is shared by all connections matched concurrently
+	lastDigest atomic.Pointer[AuthDigest]
 
 	clientKeys []*WrappedKey
 	serverKey  *StaticKey
@@ -267,10 +269,10 @@ func (m *MatchOpenVPN) Match(cx *layer4.Connection) (bool, error) {
 
 		if m.acceptAuth {
 			// Parse and validate MessageAuth
-			ma = &MessageAuth{MessageTraitAuth: MessageTraitAuth{Digest: m.lastDigest}}
+			ma = &MessageAuth{MessageTraitAuth: MessageTraitAuth{Digest: m.lastDigest.Load()}}
 			err = ma.FromBytesHeadless(buf[:n], hdr)
 			if err == nil && ma.Match(m.IgnoreTimestamp, m.IgnoreCrypto, m.authDigest, m.groupKeyAuth) {
-				m.lastDigest = ma.Digest
+				m.lastDigest.Store(ma.Digest)
 				return true, nil
 			}
 		}
